@@ -404,9 +404,9 @@ impl Write for OneByteWriter {
 // ---------------------------------------------------------------------------
 // Families
 
-pub const FAMILIES: [&str; 19] = [
+pub const FAMILIES: [&str; 20] = [
     "truncation", "byte-substitution", "u32-field", "chunk-ops", "xml-mutation", "read-script-1", "read-script-2", "write-fault",
-    "attr-all-bytes", "xml-all-strings", "header-variants", "deep-xml", "chunk-splice", "one-byte-io", "chunk-payload-cut", "chunk-payload-delete-byte", "decode-after-failure", "xml-long-text", "bin-long-names",
+    "attr-all-bytes", "xml-all-strings", "header-variants", "deep-xml", "chunk-splice", "one-byte-io", "chunk-payload-cut", "chunk-payload-delete-byte", "decode-after-failure", "xml-long-text", "bin-long-names", "zstd-size-fields",
 ];
 
 const SUBST: [u8; 5] = [0x00, 0x01, 0x7f, 0x80, 0xff];
@@ -610,6 +610,86 @@ fn bin_long_names(variant: usize, cut: bool, size: usize, fill: &str) -> Vec<u8>
     f
 }
 
+/// Two length fields that lie consistently: a chunk stored as a hand-made Zstandard frame (raw
+/// block holding the true payload) whose Frame_Content_Size says `declared`, under a chunk header
+/// whose uncompressed length says `header_len`. `form` selects the width of the frame's size
+/// field (0: none, 1: 2 bytes, 2: 4 bytes, 3: 8 bytes); `which` the chunk that is stored this way
+/// (0 INST, 1 PROP, 2 an unknown chunk, 3 PRNT).
+const ZSTD_SIZES: [u64; 10] = [0, 1, 0xffff, 0x1_0000, 0x100_0001, 0x1000_0000, 0x4000_0000, 0x7fff_ffff, 0xffff_ffff, u64::MAX];
+
+fn zstd_lying_frame(payload: &[u8], declared: u64, form: usize) -> Vec<u8> {
+    let mut f = vec![0x28, 0xb5, 0x2f, 0xfd];
+    match form {
+        0 => {
+            // no content size: a window descriptor instead (1 KiB window)
+            f.push(0x00);
+            f.push(0x00);
+        }
+        1 => {
+            f.push(0x60);
+            f.extend_from_slice(&((declared.saturating_sub(256)) as u16).to_le_bytes());
+        }
+        2 => {
+            f.push(0xa0);
+            f.extend_from_slice(&(declared as u32).to_le_bytes());
+        }
+        _ => {
+            f.push(0xe0);
+            f.extend_from_slice(&declared.to_le_bytes());
+        }
+    }
+    let k = payload.len() as u32;
+    let hdr = (k << 3) | 1;
+    f.extend_from_slice(&hdr.to_le_bytes()[..3]);
+    f.extend_from_slice(payload);
+    f
+}
+
+fn zstd_size_fields_file(which: usize, form: usize, declared: u64, header_true: bool) -> Vec<u8> {
+    use crate::specbin::enc::{frame_chunk, put_referents, Comp};
+    let put_str = |o: &mut Vec<u8>, b: &[u8]| {
+        o.extend_from_slice(&(b.len() as u32).to_le_bytes());
+        o.extend_from_slice(b);
+    };
+    let mut inst = 0u32.to_le_bytes().to_vec();
+    put_str(&mut inst, b"Folder");
+    inst.push(0);
+    inst.extend_from_slice(&1u32.to_le_bytes());
+    put_referents(&mut inst, &[0]);
+    let mut prop = 0u32.to_le_bytes().to_vec();
+    put_str(&mut prop, b"Name");
+    prop.push(0x01);
+    put_str(&mut prop, b"a folder");
+    let mut prnt = vec![0u8];
+    prnt.extend_from_slice(&1u32.to_le_bytes());
+    put_referents(&mut prnt, &[0]);
+    put_referents(&mut prnt, &[-1]);
+    let unknown = b"sixteen bytes!!!".to_vec();
+    let lying = |name: &[u8; 4], payload: &[u8]| -> Vec<u8> {
+        let frame = zstd_lying_frame(payload, declared, form);
+        let mut c = name.to_vec();
+        c.extend_from_slice(&(frame.len() as u32).to_le_bytes());
+        let hl = if header_true { payload.len() as u32 } else { declared as u32 };
+        c.extend_from_slice(&hl.to_le_bytes());
+        c.extend_from_slice(&0u32.to_le_bytes());
+        c.extend_from_slice(&frame);
+        c
+    };
+    let mut f = b"<roblox!\x89\xff\x0d\x0a\x1a\x0a".to_vec();
+    f.extend_from_slice(&0u16.to_le_bytes());
+    f.extend_from_slice(&1u32.to_le_bytes());
+    f.extend_from_slice(&1u32.to_le_bytes());
+    f.extend_from_slice(&[0u8; 8]);
+    f.extend(if which == 0 { lying(b"INST", &inst) } else { frame_chunk(b"INST", &inst, Comp::None) });
+    if which == 2 {
+        f.extend(lying(b"ZZZZ", &unknown));
+    }
+    f.extend(if which == 1 { lying(b"PROP", &prop) } else { frame_chunk(b"PROP", &prop, Comp::None) });
+    f.extend(if which == 3 { lying(b"PRNT", &prnt) } else { frame_chunk(b"PRNT", &prnt, Comp::None) });
+    f.extend(frame_chunk(b"END\0", b"</roblox>", Comp::None));
+    f
+}
+
 fn xml_len(tier: Tier) -> u32 {
     if tier == Tier::Quick {
         5
@@ -746,6 +826,7 @@ impl Engine {
             16 => self.corpus.files.len() as u64 * 32,
             17 => (self.xml_tag_pos.len() * LONG_PLACES * LONG_SIZES.len() * LONG_FILLS.len()) as u64,
             18 => (4 * 2 * LONG_SIZES.len() * LONG_FILLS.len()) as u64,
+            19 => (4 * 4 * 2 * ZSTD_SIZES.len()) as u64,
             _ => 0,
         }
     }
@@ -1020,6 +1101,14 @@ impl Engine {
                 b.extend_from_slice(&fb.bytes[tb[j].1..]);
                 judge_decode(Kind::Bin, &b, fam, false, out, &replay);
             }
+            19 => {
+                let i = index as usize;
+                let declared = ZSTD_SIZES[i % ZSTD_SIZES.len()];
+                let rest = i / ZSTD_SIZES.len();
+                let (header_true, form, which) = (rest % 2 == 1, (rest / 2) % 4, rest / 8);
+                let b = zstd_size_fields_file(which, form, declared, header_true);
+                judge_decode(Kind::Bin, &b, fam, false, out, &replay);
+            }
             18 => {
                 let nv = (LONG_SIZES.len() * LONG_FILLS.len()) as u64;
                 let (var, rest) = ((index % nv) as usize, index / nv);
@@ -1250,7 +1339,7 @@ pub fn check(run: &Run) -> Value {
             {"family": "xml-all-strings", "case": "<a/>"},
         ],
         "exhaustive": res.abandoned.is_empty(),
-        "rule": "fault enumeration around the real decoders/encoders: every strict prefix of every corpus file; every single-byte substitution from a 5-value set and every single-bit flip at every offset; every chunk payload cut at every length and with every single byte deleted, re-framed consistently (uncompressed / LZ4 literals / raw zstd); every u32 window of every binary file set to 7 boundary values; every chunk deleted / duplicated / swapped / spliced from another file; every tag / attribute / text-node mutation of every XML file; every read() script with <=1 (thorough: <=2) deviations {Short(1), Short(half), Interrupted} and the one-byte reader; a failing sink at every output offset (Err and Ok(0)) and a one-byte sink; all byte strings of length <=3 into Attributes::from_reader; all strings of length <=5 (thorough 6) over a 14-symbol XML alphabet into rbx_xml::from_str; all binary headers differing from a valid one in <=2 bytes over a 5-value alphabet; legal XML nested 1000..100000 deep; runs of 1..65537 bytes of one- to four-byte characters as stray text, CDATA, tag name and attribute value at every tag of every XML file, and as class name / property name / string value of hand-assembled binary files (well-formed, unknown type id, missing payload). A case is one (family, index) pair.",
+        "rule": "fault enumeration around the real decoders/encoders: every strict prefix of every corpus file; every single-byte substitution from a 5-value set and every single-bit flip at every offset; every chunk payload cut at every length and with every single byte deleted, re-framed consistently (uncompressed / LZ4 literals / raw zstd); every u32 window of every binary file set to 7 boundary values; every chunk deleted / duplicated / swapped / spliced from another file; every tag / attribute / text-node mutation of every XML file; every read() script with <=1 (thorough: <=2) deviations {Short(1), Short(half), Interrupted} and the one-byte reader; a failing sink at every output offset (Err and Ok(0)) and a one-byte sink; all byte strings of length <=3 into Attributes::from_reader; all strings of length <=5 (thorough 6) over a 14-symbol XML alphabet into rbx_xml::from_str; all binary headers differing from a valid one in <=2 bytes over a 5-value alphabet; legal XML nested 1000..100000 deep; runs of 1..65537 bytes of one- to four-byte characters as stray text, CDATA, tag name and attribute value at every tag of every XML file, and as class name / property name / string value of hand-assembled binary files (well-formed, unknown type id, missing payload); hand-made Zstandard frames whose content-size field (absent / 2 / 4 / 8 bytes wide) and chunk header length state the same wrong size (10 sizes up to 2^64-1) for each of four chunk kinds. A case is one (family, index) pair.",
     })
 }
 
